@@ -17,6 +17,7 @@
 From Coq Require Import List ZArith NArith Bool.
 From XV Require Import Lib.Sx Model.Recv Proofs.RecvP.
 From XV Require Model.XmlTree Model.Parser Model.RecvFrame Proofs.RecvFrameP.
+From XV Require Import Model.RecvHist Proofs.RecvHistP.
 Import ListNotations.
 Open Scope N_scope.
 
@@ -131,6 +132,41 @@ Proof.
   - apply (RecvFrameP.crecv_tokens_truncated reg tok idn items n a cs pre suf inb nw wf H Hd Hf Hp Hs).
 Qed.
 
+(* ---- one Client object, several connections (Model/RecvHist.v) ----
+   For EVERY history of connections of one Client - each either cut during its negotiation or established and
+   lost behind any list of complete elements: when the receiver of a connection has returned, no keepalive
+   goroutine is running, after every round, not only the first; and the quit channels are fresh: the k-th
+   established connection has channel number k, made for it. *)
+Theorem C12_every_connection_stops_its_keepalive : forall rs : list round,
+  Forall (fun o => ro_alive o = []) (run_hist ks_init rs) /\
+  flat_map chan_list (run_hist ks_init rs) = seq 0 (length (filter rd_est rs)).
+Proof. intro rs. exact (run_hist_quiet rs ks_init quiet_init). Qed.
+
+(* ... and each established connection, wherever it stands in the history, closes ITS OWN channel - one that
+   was still open when the connection began (no earlier connection's end had closed it) - by the one AQuit of
+   its receiver (C12_reported_once places it before the loss is reported). *)
+Theorem C12_own_quit_channel : forall pre r post, rd_est r = true ->
+  exists s0, nth_error (run_hist ks_init (pre ++ r :: post)) (length pre) = Some (fst (run_round s0 r)) /\
+    ks_alive s0 = [] /\
+    ro_chan (fst (run_round s0 r)) = Some (ks_next s0) /\
+    ~ In (ks_next s0) (ks_closed s0) /\ In (ks_next s0) (ks_closed (snd (run_round s0 r))) /\
+    count_act is_quit (ro_trace (fst (run_round s0 r))) = 1%nat /\
+    ro_alive (fst (run_round s0 r)) = [].
+Proof.
+  intros pre r post He.
+  destruct (run_hist_own_quit pre ks_init quiet_init r post He) as (s0 & Hq & Hn & H1 & H2 & H3).
+  exists s0. destruct (run_round_quiet s0 r Hq) as (_ & Ha & Hr). cbn zeta in *. rewrite He in Hr.
+  repeat split; try assumption; [exact (proj1 Hq)|exact (proj1 Hr)].
+Qed.
+
+Example C12_history_example :
+  map (fun o => (ro_chan o, ro_alive o))
+      (run_hist ks_init [ {| rd_est := true; rd_inb := 0; rd_items := [IStanza KMsg 1] |};
+                          {| rd_est := false; rd_inb := 0; rd_items := [] |};
+                          {| rd_est := true; rd_inb := 1; rd_items := [IStanza KMsg 1; IStreamError 0; ISmR] |} ])
+  = [(Some 0%nat, []); (None, []); (Some 1%nat, [])].
+Proof. reflexivity. Qed.
+
 Example C12_example :
   crecv 2 0 (fault_at 1) [IStanza KMsg 1; ISmR; IStanza KMsg 2]
   = [ARouteAsync (IStanza KMsg 1); AWriteFail 3; ARouteAsync ISmR; ARouteAsync (IStanza KMsg 2);
@@ -151,3 +187,5 @@ Print Assumptions C12_handed_over.
 Print Assumptions C12_endings.
 Print Assumptions C12_cut_anywhere.
 Print Assumptions C12_cut_inside_element.
+Print Assumptions C12_every_connection_stops_its_keepalive.
+Print Assumptions C12_own_quit_channel.
